@@ -30,7 +30,6 @@ pub fn scenarios() -> Vec<Scenario> {
         scn!(scenario_special_encodings_rejected, 2),
         scn!(scenario_round_trips, 2),
         scn!(scenario_header_version_and_ciphersuite, 2),
-        scn!(scenario_json_members_required, 1),
         scn!(scenario_boundary_values_round_trip, 2),
     ]
 }
@@ -1193,92 +1192,6 @@ pub fn json_with_one_member_deleted<T: Serialize>(v: &T) -> Vec<(String, Value)>
         }
     }
     out
-}
-
-/// A stored / transmitted JSON document that lacks a member is REFUSED by every JSON entry point (`from_value`, `from_str`),
-/// except for the members documented as optional (`optional`: dotted paths).
-pub fn json_members_required<T: Serialize + DeserializeOwned>(name: &str, v: &T, optional: &[&str]) -> Verdict {
-    let j = need(serde_json::to_value(v), "to_value")?;
-    must(serde_json::from_value::<T>(j), &format!("{name}: serde_json::from_value of its own JSON value"))?;
-    for (member, doc) in json_with_one_member_deleted(v) {
-        if optional.contains(&member.as_str()) {
-            continue;
-        }
-        let text = doc.to_string();
-        let by_value = serde_json::from_value::<T>(doc).is_ok();
-        let by_str = serde_json::from_str::<T>(&text).is_ok();
-        check(
-            !by_value && !by_str,
-            &format!("{name}: a JSON document without its `{member}` member is refused (a missing member is not silently replaced by a default)"),
-            "Err(..) from from_value and from_str",
-            format!("from_value accepts: {by_value}, from_str accepts: {by_str}; document {}", if text.len() > 300 { &text[..300] } else { &text }),
-        )?;
-    }
-    Ok(())
-}
-
-/// Every JSON-encodable state / wire type: each member of the document (top level, headers, nested packages) is required.
-/// The one documented exception is `PublicKeyPackage.min_signers` (absent in packages written before 3.0.0).
-pub fn scenario_json_members_required<C: Suite>(rng: &mut TestRng, p: &Params, notes: &mut Notes) -> Verdict {
-    let s = samples::<C>(rng, p)?;
-    let mut n = 0;
-    for kp in s.keys.key_packages.values() {
-        json_members_required("KeyPackage", kp, &[])?;
-        n += 1;
-    }
-    json_members_required("PublicKeyPackage", &s.keys.pubkeys, &["min_signers"])?;
-    let loaded_legacy: PublicKeyPackage<C> = {
-        let mut j = need(serde_json::to_value(&s.keys.pubkeys), "to_value")?;
-        if let Some(m) = j.as_object_mut() {
-            m.remove("min_signers");
-        }
-        must(serde_json::from_value(j), "PublicKeyPackage: a JSON document without `min_signers` (pre-3.0.0 form) is accepted")?
-    };
-    check(
-        loaded_legacy.min_signers().is_none() && loaded_legacy.verifying_key() == s.keys.pubkeys.verifying_key(),
-        "PublicKeyPackage loaded from the pre-3.0.0 form records no threshold (it does not invent one)",
-        "min_signers None",
-        format!("{:?}", loaded_legacy.min_signers()),
-    )?;
-    if let Some(shares) = &s.keys.secret_shares {
-        for sh in shares.values() {
-            json_members_required("SecretShare", sh, &[])?;
-        }
-    }
-    json_members_required("SigningPackage", &s.session.package, &[])?;
-    for x in s.session.nonces.values() {
-        json_members_required("SigningNonces", x, &[])?;
-    }
-    for x in s.session.commitments.values() {
-        json_members_required("SigningCommitments", x, &[])?;
-    }
-    for x in s.session.shares.values() {
-        json_members_required("SignatureShare", x, &[])?;
-    }
-    for x in s.dkg.r1_pkg.values() {
-        json_members_required("dkg::round1::Package", x, &[])?;
-    }
-    for x in s.dkg.r1_secret.values() {
-        json_members_required("dkg::round1::SecretPackage", x, &[])?;
-    }
-    for x in s.dkg.r2_secret.values() {
-        json_members_required("dkg::round2::SecretPackage", x, &[])?;
-    }
-    for out in s.dkg.r2_out.values() {
-        for x in out.values() {
-            json_members_required("dkg::round2::Package", x, &[])?;
-        }
-    }
-    // the distributed refresh uses the same types with a shorter commitment
-    let id = match s.keys.ids.first() {
-        Some(i) => *i,
-        None => return skip("internal"),
-    };
-    let (rs, rp) = need(keys::refresh::refresh_dkg_part1::<C, _>(id, 3, 2, &mut *rng), "refresh_dkg_part1")?;
-    json_members_required("refresh round-one SecretPackage", &rs, &[])?;
-    json_members_required("refresh round-one Package", &rp, &[])?;
-    notes.insert("key_packages".into(), json!(n));
-    Ok(())
 }
 
 // ------------------------------------------------------------------------------------------------
